@@ -10,3 +10,5 @@ CONSTANTS NP = 1
           Cfgs <- MCCfgs
           Msgs <- MCMsgs
 PROPERTY EveryAcceptedWantAnswered
+INVARIANTS TypeOK BlockOnlyIfPresentWantedPermitted HaveOnlyIfPresent DontHaveOnlyIfAbsentAndAsked
+           LedgerBounded NoGhostWhenIdeal QueueBounded PresentWantHasTask EvictionOrder
